@@ -171,7 +171,8 @@ fn exports(c: &Circuit) -> ([String; 3], String)
     let oq = export_class(catch_unwind(AssertUnwindSafe(|| c.open_qasm())).ok(), false);
     let cq = export_class(catch_unwind(AssertUnwindSafe(|| c.c_qasm())).ok(), false);
     let lx = export_class(catch_unwind(AssertUnwindSafe(|| c.latex())).ok(), true);
-    let fp = format!("{}|{}|{}|{}", oq.1, cq.1, lx.1, c.is_stabilizer_circuit());
+    // every public query of the object that does not need an execution
+    let fp = format!("{}|{}|{}|{}|{}|{}|{}", oq.1, cq.1, lx.1, c.is_stabilizer_circuit(), c.nr_qbits(), c.nr_cbits(), c.verif_nr_ops());
     ([oq.0, cq.0, lx.0], fp)
 }
 
